@@ -93,6 +93,13 @@ pub fn deserialize_eps_slice_zero<'a, T: ZeroCopy>(
     let len = usize::_deserialize_full_inner(backend)?;
     let bytes = len * core::mem::size_of::<T>();
     backend.align::<T>()?;
+    if core::mem::size_of::<T>() == 0 {
+        // SAFETY: T is zero-sized, so a dangling but aligned pointer is valid for `len` elements
+        // (`align_to` would return an empty slice whatever `len` is).
+        return Ok(unsafe {
+            core::slice::from_raw_parts(core::ptr::NonNull::<T>::dangling().as_ptr(), len)
+        });
+    }
     let (pre, data, after) = unsafe { backend.data[..bytes].align_to::<T>() };
     debug_assert!(pre.is_empty());
     debug_assert!(after.is_empty());
